@@ -157,6 +157,27 @@ func checkC39d(c c39Case) (o vstat.Outcome) {
 				}
 			}
 		}
+		if started && !exited {
+			// the identity is announced by the peer controller on a goroutine of its own: give the line time to appear
+			// before the process is stopped
+			dl := time.Now().Add(20 * time.Second)
+			for time.Now().Before(dl) && !peerMountedRe.MatchString(out.String()) {
+				select {
+				case <-done:
+					exited = true
+					dl = time.Now()
+				case <-time.After(5 * time.Millisecond):
+				}
+			}
+			if !peerMountedRe.MatchString(out.String()) {
+				cancel()
+				if !exited {
+					<-done
+				}
+				o.Discard = true
+				return
+			}
+		}
 		cancel()
 		if !exited {
 			<-done
